@@ -70,3 +70,54 @@ package bscript
 //@   ensures[C13.encode_parts] (=> (= err nil) (= (bytes r0) (old (spec.enc_parts parts (len parts)))))
 //@   loop 0 invariant (fresh b)
 //@   loop 0 invariant (= (bytes b) (old (spec.enc_parts parts (+ rangeindex 1))))
+
+// ---- addresses and P2PKH construction (C15) ----
+//@ func bscript.checksum
+//@   bytes token
+//@   pure
+//@   ensures[C15.checksum] (and (= (select result 0) (bat (bsha256d (bytes input)) 0)) (= (select result 1) (bat (bsha256d (bytes input)) 1)) (= (select result 2) (bat (bsha256d (bytes input)) 2)) (= (select result 3) (bat (bsha256d (bytes input)) 3)))
+//@ func bscript.Base58EncodeMissingChecksum
+//@   bytes token
+//@   pure
+//@   ensures[C15.b58check_encode] (= result (b58enc (bcat (bytes input) (bsub (bsha256d (bytes input)) 0 4))))
+//@ func bscript.NewAddressFromPublicKeyHash
+//@   bytes token
+//@   pure
+//@   fresh r0
+//@   ensures[C15.addr_from_hash] (and (= err nil) (not (nil? r0)) (= (. r0 AddressString) (b58enc (spec.addr_payload (ite mainnet 0 111) (bytes hash)))) (= (. r0 PublicKeyHash) (bhex (bytes hash))))
+//@ func bscript.addressToPubKeyHashStr
+//@   bytes token
+//@   pure
+//@   ensures[C15.addr_accept_only_valid] (=> (= err nil) (spec.addr_ok (b58dec address)))
+//@   ensures[C15.addr_accept_valid] (=> (spec.addr_ok (b58dec address)) (= err nil))
+//@   ensures[C15.addr_hash] (=> (= err nil) (= r0 (bhex (bsub (b58dec address) 1 21))))
+//@ func bscript.NewAddressFromString
+//@   bytes token
+//@   pure
+//@   fresh r0
+//@   ensures[C15.addr_from_string] (and (= (= err nil) (spec.addr_ok (b58dec addr))) (=> (= err nil) (and (not (nil? r0)) (= (. r0 AddressString) addr) (= (. r0 PublicKeyHash) (bhex (bsub (b58dec addr) 1 21))))))
+//@ func bscript.NewP2PKHFromPubKeyHash
+//@   bytes token
+//@   pure
+//@   fresh r0
+//@   ensures[C15.p2pkh_from_hash] (and (= err nil) (not (nil? r0)) (= (bytes r0) (spec.p2pkh_script (bytes pubKeyHash))))
+//@ func bscript.NewP2PKHFromPubKeyBytes
+//@   bytes token
+//@   pure
+//@   ensures[C15.p2pkh_from_key] (and (= (= err nil) (= (len pubKeyBytes) 33)) (=> (= err nil) (and (not (nil? r0)) (= (bytes r0) (spec.p2pkh_script (bhash160 (bytes pubKeyBytes)))))))
+//@ func bscript.(*Script).AppendPushData
+//@   bytes token
+//@   opt writes s
+//@   assigns (cell s) (elems s)
+//@   ensures[C15.append_push_ok] (=> (<= (len d) 4294967295) (= err nil))
+//@   ensures[C15.append_push] (=> (= err nil) (= (bytes s) (bcat (old (bytes s)) (bcat (spec.pd (len d)) (old (bytes d))))))
+//@ func bscript.(*Script).AppendOpcodes
+//@   bytes token
+//@   opt writes s
+//@   assigns (cell s) (elems s)
+//@   opt forall-patterns 1
+//@   ensures[C15.append_ops] (=> (= err nil) (= (bytes s) (bcat (old (bytes s)) (old (bytes oo)))))
+//@   ensures[C15.append_ops_ok] (=> (forall ((k Int)) (=> (and (<= 0 k) (< k (len oo))) (or (< (old (at oo k)) 1) (> (old (at oo k)) 78)))) (= err nil))
+//@ func bscript.NewP2PKHFromAddress
+//@   bytes token
+//@   ensures[C15.p2pkh_from_address] (and (= (= err nil) (spec.addr_ok (b58dec addr))) (=> (= err nil) (and (not (nil? r0)) (= (bytes r0) (spec.p2pkh_script (bsub (b58dec addr) 1 21))))))
